@@ -447,6 +447,23 @@ def binding_battery():
     b.append(Scenario("B\n1\n", S, default_answer=[0, 0, 0],
                       expect={"row_inputs_full": [[("B", "1", True), ("A", "1", False), ("D", "165", False)]],
                               "row_expected": [["X", "X", "X"]]}, note="single column"))
+    # second round: an output column to the left of an input column, a row whose IO failed, names that are prefixes
+    b.append(Scenario("Q A\nX 1\n2 X\n", S, default_answer=[0, 0, 0],
+                      expect={"row_inputs_full": [[("B", "7", False), ("A", "1", True), ("D", "165", False)],
+                                                  [("B", "7", False), ("A", "0", True), ("D", "165", False)],
+                                                  [("B", "7", False), ("A", "1", True), ("D", "165", False)]],
+                              "row_expected": [["X", "X", "X"], ["X", "X", "2"], ["X", "X", "2"]]},
+                      note="X in an output column left of an input column is an expected X, not an expansion"))
+    for k in (2, 3):
+        b.append(Scenario("A Y\n5 X\n9 X\n5 X\n9 X\n5 X\n", S, default_answer=[0, 0, 0], fail_at=[k], stop_on_err=False,
+                          note="driver fails at call %d and the caller goes on: changed flags follow what was handed over" % k))
+    S2 = [("bidir", "IO", 8, 1), ("bidir", "IO2", 8, 2), ("out", "Y", 8)]
+    b.append(Scenario("IO IO2 IO2_out Y\n3 4 5 6\n", S2, default_answer=[0, 0, 0],
+                      expect={"row_inputs_full": [[("IO", "3", True), ("IO2", "4", True)]], "row_expected": [["X", "5", "6"]]},
+                      note="IO2_out is the read-back column of IO2 only; IO without IO_out expects X"))
+    b.append(Scenario("IO2_out IO_out Y\n5 7 6\n", S2, default_answer=[0, 0, 0],
+                      expect={"row_inputs_full": [[("IO", "1", False), ("IO2", "2", False)]], "row_expected": [["7", "5", "6"]]},
+                      note="read-back columns of two signals one of whose names is a prefix of the other"))
     return b
 
 
@@ -908,6 +925,18 @@ def dig_battery():
     b.append(Scenario(dig_xml(pins, [("t", "A Y_out\n1 1\n")]), [], mode="dig", expect={"dig": "err"}, note="_out column whose stem is an output pin"))
     b.append(Scenario("<circuit><visualElements>", [], mode="dig", expect={"dig": "err"}, note="truncated XML"))
     b.append(Scenario("", [], mode="dig", expect={"dig": "err"}, note="empty document"))
+    # second round: line numbers of a test loaded from a document count from the first line of its own source text
+    t3 = ("blank-first", "\n \t\n\nA Y\n1 1\n\n2 2\n")
+    b.append(Scenario(dig_xml(pins, [t1, t3]), [], mode="dig", load="1", default_answer=[0, 0],
+                      expect={"dig": "ok", "load": "ok", "tests": [t1, t3], "lines": [5, 7]},
+                      note="blank lines before the header of a document test are counted"))
+    b.append(Scenario(dig_xml(pins, [t3]), [], mode="dig", load="name:" + "blank-first".encode().hex(), default_answer=[0, 0],
+                      expect={"dig": "ok", "load": "ok", "lines": [5, 7]}, note="the same, loaded by name"))
+    pins3 = pins + [("In", "A_out", 2, 1)]
+    b.append(Scenario(dig_xml(pins3, [("t", "A A_out Y\n1 1 1\n")]), [], mode="dig", load="0", default_answer=[0, 0],
+                      expect={"dig": "ok", "signals": ["A:4:in:3", "B:1:in:0", "CLK:1:in:0", "D:8:in:Z", "A_out:2:in:1", "Y:8:out", "Q:1:out"],
+                              "load": "ok"},
+                      note="an input pin labelled A_out is its own signal, A stays an input"))
     pins2 = pins + [("Out", "A_out", 2, None)]
     b.append(Scenario(dig_xml(pins2, [("t", "A A_out\n1 1\n")]), [], mode="dig", load="0", default_answer=[0, 0, 0],
                       expect={"dig": "ok", "signals": ["A:4:in:3", "B:1:in:0", "CLK:1:in:0", "D:8:in:Z", "Y:8:out", "Q:1:out", "A_out:2:out"], "load": "ok"},
